@@ -36,6 +36,21 @@ def fmt_number(rng, x):
     if x == 0:
         return rng.choice(['0', '0.0', '0e0'])
     k = rng.random()
+    if k < 0.08:
+        # spellings of a float that are legal but rarer: a trailing or a leading decimal point, an explicit plus sign,
+        # a mantissa ending in a point ('50.', '.5', '+5', '5.e1' - numpy prints whole numbers as '50.')
+        r_ = rng.randrange(4)
+        if r_ == 0 and abs(x) >= 1 and abs(x) < 1e12:
+            return f'{int(round(x))}.'
+        if r_ == 1 and 0 < abs(x) < 1:
+            t_ = f'{x:.{rng.randint(2, 6)}f}'
+            if float(t_) != 0:
+                return t_.replace('0.', '.', 1)
+        if r_ == 2 and x > 0:
+            return '+' + repr(float(x))
+        if r_ == 3 and abs(x) >= 1 and abs(x) < 1e12:
+            return f'{int(round(x)) / 10 ** (len(str(int(round(abs(x))))) - 1):.0f}.e{len(str(int(round(abs(x))))) - 1}' \
+                if str(int(round(abs(x)))).rstrip('0') in ('1', '2', '3', '4', '5', '6', '7', '8', '9') else f'{int(round(x))}.'
     if k < 0.45:
         return repr(float(x))
     if k < 0.75:
